@@ -34,7 +34,8 @@ Section P.
     Good O M w ->
     let w' := update_kinematics O M w q qd qdd in
     forall i, 0 < i < nbodies M ->
-      gv O w' i = vF O M q qd i /\ gc O w' i = cU O M q qd i /\ ga O w' i = aU O M q qd qdd i /\ gXb O w' i = XbF O M q i.
+      gv O w' i = vF O M q qd i /\ gc O w' i = cU O M q qd i /\ ga O w' i = aU O M q qd qdd i /\ gXb O w' i = XbF O M q i /\
+      gXl O w' i = XlF O M q i.
   Proof. intros W C. exact (uk_a_spec O M q qd qdd W C w). Qed.
   Theorem C06_acceleration_recursion_unfolded (M : @Model T) q qd qdd i : WF M -> 0 < i < nbodies M ->
     aU O M q qd qdd i = svadd O (svadd O (st_apply O (XlF O M q i) (aU O M q qd qdd (getlam M i))) (cU O M q qd i))
